@@ -696,7 +696,89 @@ pub fn results_family() -> Vec<([u8; 64], bool)> {
                 out.push((c, gold_to_move));
             }
         }
+        // more ways of having no legal step at the start of a turn (each with and without rabbits of the
+        // side that just moved, because elimination of that side comes first in the official order):
+        for opp_rabbits in [false, true] {
+            // (i) the only free square next to the mover's rabbit is BEHIND it
+            let mut c = [0u8; 64];
+            if gold_to_move {
+                c[35] = 1; // Rd4
+                c[27] = 9; // dd5 in front (does not freeze... a dog freezes a rabbit: so add a friend)
+                c[34] = 4; // Hc4 friend on the left: not frozen, and itself blocked below
+                c[36] = 10; // he4 on the right
+                c[26] = 12; // ec5 above the horse: freezes? no - the horse has a friend (the rabbit)
+                c[33] = 8; // cb4 left of the horse
+                c[42] = 7; // rc3 below the horse (a trap square, supported by nothing -> repaired below)
+            } else {
+                c[27] = 7; // rd5
+                c[35] = 3; // Dd4 in front of it
+                c[26] = 10; // hc5 friend
+                c[28] = 4; // He5
+                c[34] = 6; // Ec4
+                c[25] = 2; // Cb5
+                c[18] = 1; // Rc6 (trap square)
+            }
+            if opp_rabbits {
+                if gold_to_move { c[8] = 7; } else { c[55] = 1; }
+            }
+            for &t in TRAPS.iter() {
+                if c[t] != 0 && !has_friend(&c, t) {
+                    c[t] = 0;
+                }
+            }
+            out.push((c, gold_to_move));
+            // (ii) a strong piece hemmed in by weaker enemy pieces that cannot be pushed anywhere
+            let mut c = [0u8; 64];
+            if gold_to_move {
+                c[56] = 6; // Ea1
+                c[57] = 1; // Rb1
+                c[48] = 7; // ra2
+                c[49] = 9; // db2
+                c[58] = 8; // cc1
+                c[40] = 10; // ha3 (behind the rabbit: a2 cannot be pushed north)
+                c[41] = 7; // rb3
+                c[50] = 7; // rc2
+                c[59] = 10; // hd1
+            } else {
+                c[0] = 12; // ea8
+                c[1] = 7; // rb8
+                c[8] = 1; // Ra7
+                c[9] = 3; // Db7
+                c[2] = 2; // Cc8
+                c[16] = 4; // Ha6
+                c[17] = 1; // Rb6
+                c[10] = 1; // Rc7
+                c[3] = 4; // Hd8
+            }
+            if !opp_rabbits {
+                for v in c.iter_mut() {
+                    if (gold_to_move && *v == 7) || (!gold_to_move && *v == 1) {
+                        *v = if gold_to_move { 8 } else { 2 };
+                    }
+                }
+                // cats instead of rabbits: recount the complement below
+            }
+            out.push((c, gold_to_move));
+            // (iii) every piece of the mover is frozen
+            let mut c = [0u8; 64];
+            if gold_to_move {
+                c[35] = 2; // Cd4 frozen by
+                c[27] = 9; // dd5
+                c[60] = 1; // Re1 frozen by
+                c[61] = 8; // cf1
+            } else {
+                c[27] = 8; // cd5
+                c[35] = 3; // Dd4
+                c[4] = 7; // re8
+                c[5] = 2; // Cf8
+            }
+            if opp_rabbits {
+                if gold_to_move { c[8] = 7; } else { c[55] = 1; }
+            }
+            out.push((c, gold_to_move));
+        }
     }
+    out.retain(|(c, _)| legal_position(c));
     out
 }
 
